@@ -15,8 +15,8 @@ CFG = {
                   "c10_proper_prefix_is_error); for EVERY chunking and every read program ReaderX decodes what BufferX decodes "
                   "from the concatenation (c10_read_agrees: same data or same error at the Read level; c10_readerx_agrees: same "
                   "values, errors at the same reads, same bytes left). case_sound is a theorem through model_holds-style lemmas "
-                  "(round_sound, trunc_sound, rewrite_sound, hist_sound, stream_sound); a refused write is the identity on the buffer (c10_failed_write_identity) and the accepted writes around it still read back (c10_roundtrip_with_refused). The model is tied to the code on every run "
-                  "by eight kinds of experiment on the real package (typed programs with all / sampled truncation points, random "
+                  "(round_sound, trunc_sound, rewrite_sound, hist_sound, stream_sound); a refused write is the identity on the buffer (c10_failed_write_identity) and the accepted writes around it still read back (c10_roundtrip_with_refused); Reset is the empty buffer, so a history with Resets is the concatenation of independent per-message runs (c10_reset_independent, c10_messages_independent) and the FIFO monitor of the re-use class holds on every history (c10_reuse_monitor). The model is tied to the code on every run "
+                  "by nine kinds of experiment on the real package (typed programs with all / sampled truncation points, random "
                   "histories incl. mismatched reads and rewrites, crafted and arbitrary decoder input, rewrites on a partly consumed "
                   "buffer, ReaderX over one-byte / random / empty-chunk / all-at-once sources against BufferX), each outcome "
                   "compared inside Coq with the model (values, error class, bytes left). Proof is the right level: the quantifiers "
@@ -45,7 +45,16 @@ CFG = {
             "131073, 196608, 262144 bytes - 1<<20 in the thorough tier - between small fields, over several reader types and chunk sizes; the "
             "case term carries no large literal: the source is a list of segments, the big ones expanded in Coq and in Go by the same "
             "two-counter byte generator gen_bytes, and every observed byte string is compared NOT byte for byte but through a digest "
-            "computed on both sides: length, first and last eight bytes, sum of the bytes, sum of the prefix sums). Private instances in parallel (class parallel, judged as CLarge cases): 8 goroutines released together by a "
+            "computed on both sides: length, first and last eight bytes, sum of the bytes, sum of the prefix sums). Re-use after Reset (CReuse): ONE BufferX (NewBufferX / NewSizedBufferX(0, 9, 1024, 2048, 70000) / "
+            "NewReadableBufferX(nil)) carries 3-5 messages separated by Reset or by reading it empty; message payloads around the default "
+            "size (1000..1100, 1019..1025, 2048 bytes), around 64 KiB (65531..65538) and 100-220 KiB, at least one message above 64 KiB that "
+            "is not the last; Len() and Bytes() are observed after every Reset, after the writes and after the reads of every message, "
+            "with ReWrite on the empty buffer and inside a message; payloads are generator parameters (length, start, step) and observed "
+            "byte strings are digests (length, first/last 8 bytes, sum, sum of prefix sums), not byte lists; the monitor is a FIFO of the "
+            "values written and not yet read: empty after Reset, known lengths stay true, every matching read returns the oldest unread "
+            "value. The varint boundary values (unsigned 2^(7k)-1, 2^(7k), 2^(7k)+1, k = 1..9, 2^63, 2^64-1; signed +-2^(7k-1), "
+            "+-2^(7k-1)+-1, MinInt64, MaxInt64; the 32-bit variants where they fit) are fixed CRound / CTrunc members of every run. "
+            "Private instances in parallel (class parallel, judged as CLarge cases): 8 goroutines released together by a "
             "spin barrier, each with its own bytes (recognisable generator parameters per goroutine, strings / blocks from a few bytes to "
             "45 KiB between fields of every fixed-width type), its own BufferX and its own ReaderX over its own source, decode their stream "
             "120 times (400 in the thorough tier); the first observation of each goroutine and every observation that differs from it (at "
